@@ -73,6 +73,18 @@ async def run_seq(ports, acts):
                 if p in foreign: foreign.pop(p).close()
             elif k == 6:
                 await others[i % 2].stop()          # stopping another bridge object (same ports, never started) concerns that object only
+            elif k == 8:
+                # start() cancelled while it is suspended between two ports (a timeout around start, a shutdown): what is bound at that
+                # moment is the bridge's until stop() - which must then release it
+                t = asyncio.ensure_future(b.start())
+                for _ in range(200):
+                    await asyncio.sleep(0)
+                    if t.done() or not can_bind(ports[min(1, len(ports) - 1)]): break        # the second port's socket exists: the first port is open, start() is suspended on the second
+                t.cancel()
+                try: await t
+                except BaseException: pass
+                await settle()
+                out += "?|"; continue
             elif k == 7:
                 # an unrelated bridge object fails to start (its only port is held by a foreign socket): that concerns that object only
                 xp = world.free_udp_ports(1)[0]; fs = socket.socket(socket.AF_INET, socket.SOCK_DGRAM); fs.bind(("0.0.0.0", xp))
@@ -110,6 +122,7 @@ def spec_judge(n_ports, text):
     """the property's clauses on the observed trace, independent of the model"""
     if "LATE=" in text: return "%s callback(s) made after stop() had returned" % text.split("LATE=")[1].rstrip("|")
     for step in text.split("|")[:-1]:
+        if step == "?": continue
         run, held, o = step[0] == "R", step[1:1 + n_ports], step[-1]
         if run and any(h != "B" for h in held): return "is_running is True but not every configured port is held (%s)" % step
         if "S" in held: return "a port held by the bridge can be taken by a second listener (SO_REUSEPORT) (%s)" % step
@@ -126,8 +139,11 @@ def run_sequences(out, stream, n_ports, seqs):
     io = asyncio.run(go())
     # the several-objects model (Model/MultiBridge.v) gives the expected trace, also for actions on other bridge objects (kinds 6, 7);
     # where only the observed object acts, the one-object model of theorem C17_lifecycle must say the same
-    mo = lib.run_model([lib.req("bridge2", list(range(n_ports)), [[k, i] for k, i in s if k != 5]) for s in seqs])
-    plain = [j for j, s_ in enumerate(seqs) if not any(k in (6, 7) for k, _ in s_)]
+    mo = lib.run_model([lib.req("bridge2", list(range(n_ports)), [[k, i] for k, i in s if k not in (5, 8)]) for s in seqs])
+    for j, s_ in enumerate(seqs):          # the model has no cancellation: the step is marked "?" on both sides, the stop() that follows is judged
+        if any(k == 8 for k, _ in s_):
+            it = iter(mo[j].split("|")[:-1]); mo[j] = "".join(("?" if k == 8 else next(it)) + "|" for k, _ in s_ if k != 5)
+    plain = [j for j, s_ in enumerate(seqs) if not any(k in (6, 7, 8) for k, _ in s_)]
     one = lib.run_model([lib.req("bridge", list(range(n_ports)), [[k, i] for k, i in seqs[j] if k != 5]) for j in plain])
     lib.differential(out, stream + "/one-object-model-vs-several-objects-model", [{"ports": n_ports, "acts": [list(a) for a in seqs[j]]} for j in plain],
                      [mo[j] for j in plain], one, None, lambda c: "models on %s" % c["acts"])
@@ -144,7 +160,7 @@ def run_sequences(out, stream, n_ports, seqs):
             if t != io[k]:
                 out.notes.append("sequence %s gave %s, then %s on fresh ports: not reproducible, second run kept" % (seqs[k], io[k], t)); io[k] = t
     cases = [{"ports": n_ports, "acts": [list(a) for a in s]} for s in seqs]
-    names = ["start", "stop", "occupy", "release", "send", "send-without-waiting", "stop-another-bridge-object", "another-bridge-object-fails-to-start"]
+    names = ["start", "stop", "occupy", "release", "send", "send-without-waiting", "stop-another-bridge-object", "another-bridge-object-fails-to-start", "start-cancelled-between-ports"]
     lib.differential(out, stream, cases, io, mo, ["ok"] * len(cases), lambda c: "%d ports: " % c["ports"] + ", ".join(names[k] + ("" if k < 2 else " %d" % i) for k, i in c["acts"]),
                      nontrivial=lambda c: any(k == 0 for k, _ in c["acts"]), sample=lambda c: c, classify=lambda c, i: "len%d" % len(c["acts"]),
                      impl_spec=[spec_judge(n_ports, t) for t in io])
@@ -200,6 +216,10 @@ def run(tier, rnd, out):
     seqs6 = [[(0, 0), o, (4, 0)] for o in ob] + [[o, (0, 0), (4, 1), o, (4, 0), (1, 0)] for o in ob] + [[(0, 0), (1, 0), o, (0, 0), o, (4, 0), (4, 1)] for o in ob]
     seqs6 += [[rnd.choice(alphabet + ob + ob) for _ in range(rnd.randrange(3, 9))] for _ in range(60 if tier == "quick" else 1500)]
     run_sequences(out, "with-other-bridge-objects-on-the-same-ports", 2, seqs6)
+    seqs8 = [[(8, 0), (1, 0)], [(8, 0), (1, 0), (4, 0), (4, 1)], [(8, 0), (1, 0), (0, 0), (4, 0), (4, 1), (1, 0)], [(0, 0), (1, 0), (8, 0), (1, 0), (0, 0), (4, 1)],
+             [(2, 1), (8, 0), (1, 0), (3, 1), (0, 0), (4, 1)]]
+    run_sequences(out, "start-cancelled-then-stop", 2, seqs8)
+    run_sequences(out, "start-cancelled-then-stop", 3, [[(8, 0), (1, 0), (4, 0), (4, 1), (4, 2)], [(8, 0), (1, 0), (0, 0), (4, 2), (1, 0)]])
     got = asyncio.run(bad_port_list())
     lib.differential(out, "port-list-with-an-impossible-port", [{"ports": "two free ports and 200003"}, {"ports": "two free ports and -1"}], got, None,
                      ["start raised; running=False; first ports free=True"] * 2, lambda c: "start() on %s" % c["ports"])
